@@ -443,10 +443,9 @@ def process (st : State) (line : String) : State × String :=
   | ["sim.wi", k, tok] =>
     match st.sim, k.toNat?, parseInstr tok with
     | some (five, p), some n, some i =>
-      if n ≤ p.st.imem.prog.length then
-        let prog' := if n < p.st.imem.prog.length then p.st.imem.prog.set n i else p.st.imem.prog ++ [i]
-        ({ st with sim := some (five, { p with st := { p.st with imem := { p.st.imem with prog := prog' } } }) }, "ok")
-      else (st, "bad-op")
+      match SimViews.writeInstr p.st.imem n i with
+      | some im' => ({ st with sim := some (five, { p with st := { p.st with imem := im' } }) }, "ok")
+      | none => (st, "bad-op")
     | _, _, _ => (st, "bad-op")
   | ["sim.reg", r, v] =>
     match st.sim, r.toNat?, v.toNat? with
